@@ -550,7 +550,8 @@ class Gen:
         self.emit(st)
         # ... and look again afterwards
         if rng.random() < 0.8 and self.n_checks < 12:
-            what2 = rng.choice(["TIMES", "TIMES", "LIST", "ACQ", "DURATION", "FULL"])
+            # look again: at the schedule / listing, or once more through the sink that just failed
+            what2 = what if rng.random() < 0.4 else rng.choice(["TIMES", "TIMES", "LIST", "ACQ", "DURATION", "FULL"])
             self.emit({"s": s, "op": "OBS", "what": what2, "c": rng.choice(self.all_handles()) if rng.random() < 0.3 else name, "check": True})
             self.n_checks += 1
         return True
